@@ -25,6 +25,13 @@ PROPS = {
         "rule": "one execution = one complete interleaving; bodies contain a scheduling point and a tracked enter/leave so overlap is schedulable and its order is part of the state key; distinct = distinct outcome signatures (status, violations, started/dropped/high-water)",
         "assumptions": E1_ASSUME + ["interleavings inside progress.Stats are not explored here (C01's harness)", "three-worker scenarios use the delay-bounded policy", "file mode (a new stage's pool overlapping the previous stage's in-flight work) is outside the statement and not checked"],
     },
+    "C05": {
+        "parts": [{"harness": "c05", "budget": {"quick": 90, "thorough": 3000}, "shards": {"quick": "ncpu", "thorough": "ncpu"}}],
+        "rule": "one execution = one complete schedule of a whole Run.Do (threads, select choices, same-instant timer orders, early timer expiries) in virtual time; distinct = distinct outcome signatures (status, violations, iterations begun, timeout fired, return instant, ordered event log)",
+        "assumptions": E1_ASSUME + ["virtual time: the 10 ms / 20 ms guards being enough in wall-clock terms and goroutines inside un-rewritten third-party code are outside",
+                                    "scenarios with a caller cancel, two workers or a config file use the delay-bounded policy",
+                                    "'stops requesting on time' is checked on the default schedule only: under deviations the goroutine that turns the cancellation into the stop flag may itself be the slow one"],
+    },
     "C18": {
         "parts": [{"harness": "c18", "budget": {"quick": 30, "thorough": 300}, "shards": {"quick": 1, "thorough": 1}}],
         "rule": "one execution = one complete interleaving + timer order of the scenario (schedule list x function duration x Restart/Stop/cancel script); distinct = distinct outcome signatures (status, violations, ordered event log)",
@@ -48,6 +55,9 @@ LEVELS = {
             "note": E1_NOTE},
     "C04": {"engine": "vrt", "technique": "stateless model checking of the real pools under a controlled scheduler: all interleavings up to a preemption / delay bound with in-flight tracking and barrier bodies (deadlock = violation)",
             "text": "Bodies track the in-flight count, its high-water mark and the set of live test handles under every interleaving within the bound (ceiling and handle exclusivity in every state); barrier bodies that only finish when `concurrency` bodies are inside must terminate in every schedule, so a lost wake-up or an unusable worker shows up as a deadlock.",
+            "note": E1_NOTE},
+    "C05": {"engine": "vrt", "technique": "stateless model checking of whole Run.Do executions under a controlled scheduler with virtual time: deadlock detection and a virtual-time horizon decide termination over all schedules within a deviation bound",
+            "text": "The real run.NewRun(...).Do runs on the rewritten stack in virtual time for a grid of trigger mode x ending (duration, trigger end, limit, caller cancel at chosen instants, failed setup) x body pattern (instant, sleeping, never finishing); in every schedule within the bound Do must return (deadlock / horizon otherwise), nothing may be unfinished, start or be reported after it returned without the completion timeout, and no thread may be left.",
             "note": E1_NOTE},
     "C18": {"engine": "vrt", "technique": "stateless model checking of the real raterun.Runner under a controlled scheduler with virtual time: all interleavings, select choices and same-instant timer orders up to a deviation bound",
             "text": "The real Runner runs in virtual time against scripted Restart/Stop/cancel sequences; every interleaving of the runner goroutine with the driver, every select choice among ready cases and every order of same-instant timers is executed (deviation bound per scenario in the evidence) and the ordered event log is checked: rate per schedule activation, argument, nothing executing or invoked after Stop returned, no thread or timer left.",
